@@ -52,19 +52,23 @@ Proof. vm_compute. auto. Qed.
 Theorem C06_user_abort_has_precedence : USER_ABORT_HAS_PRECEDENCE = true.
 Proof. reflexivity. Qed.
 
-(* remove(): for a transfer that is still negotiating it is a stop like abort (covered above).  For a
-   finished transfer the abort inside remove() is refused and nothing is cancelled: *)
-Theorem C06_quiescent_after_remove_partial : forall s evs, tracked s -> sremoved s = false ->
-  (stoppable s = true \/ live s = []) -> after_remove_obs cur (fst (step cur s Remove)) evs = [].
-Proof. intros s evs. exact (remove_partial cur s evs eq_refl eq_refl). Qed.
+(* remove() (repair F30: whatever the abort inside it did, remove() cancels and awaits what the slots still
+   hold before it drops the transfer).  For every direction and every event list, nothing of a removed
+   transfer connects, sends or changes a field -- also when the transfer was already finished. *)
+Theorem C06_quiescent_after_remove : forall d evs, after_remove_obs cur (init d) evs = [].
+Proof.
+  intros d evs. apply (removed_run cur evs (init d)); try reflexivity; try apply GI_init; try (cbn; discriminate).
+Qed.
 
-Theorem C06_quiescent_after_remove_refuted :
-  after_remove_obs cur (init Down) W6 = [OSend 0; OField 0] /\
-  sstate (run cur (init Down) [Cycle; Start 0; PeerMsg; Start 1; Begin 1; Finish 1; DoneCb 1]) = Done.
+(* the same for any state with the invariant, e.g. a COMPLETE download whose own remote-queue attempt is
+   still connecting (the former witness W6) *)
+Theorem C06_remove_cancels_leftovers :
+  after_remove_obs cur (init Down) W6 = [] /\
+  live (run cur (init Down) [Cycle; Start 0; PeerMsg; Start 1; Begin 1; Finish 1; DoneCb 1; Remove]) = [].
 Proof. vm_compute. auto. Qed.
 
 (* the body of TransferManager.remove is pinned by the translator; this is the version the model follows *)
-Theorem C06_remove_as_modelled : REMOVE_CANCELS_LEFTOVERS = false.
+Theorem C06_remove_as_modelled : REMOVE_CANCELS_LEFTOVERS = true.
 Proof. reflexivity. Qed.
 
 (* A management cycle INSIDE a running abort/pause (the call holds the state lock while it awaits the
@@ -79,10 +83,13 @@ Proof.
   exists WI. vm_compute. intros H. discriminate H.
 Qed.
 
-(* the code as it is: no lock test in the cycle *)
-Theorem C06_stop_interleaved_refuted :
-  CYCLE_SKIPS_LOCKED = false /\ i_after_stop_obs CYCLE_SKIPS_LOCKED i_init WI = [ISend 1; IField 1] /\
-  i_after_stop_obs CYCLE_SKIPS_LOCKED i_init WI' = [IField 1] /\ i_queued (irun CYCLE_SKIPS_LOCKED i_init WI') = true.
+(* the repaired code (repair F29: both creation loops skip a transfer whose state lock is held) *)
+Theorem C06_stop_interleaved : forall evs, i_after_stop_obs CYCLE_SKIPS_LOCKED i_init evs = [].
+Proof. exact (C06_stop_interleaved_characterisation CYCLE_SKIPS_LOCKED). Qed.
+
+Example C06_stop_interleaved_nonvacuous :
+  i_queued (irun CYCLE_SKIPS_LOCKED i_init WI) = false /\ i_live (irun CYCLE_SKIPS_LOCKED i_init WI) = [] /\
+  i_live (irun CYCLE_SKIPS_LOCKED i_init [ICycle; IStopBegin]) = [(0, ICancelling)].
 Proof. vm_compute. auto. Qed.
 
 (* non-vacuity *)
@@ -96,7 +103,7 @@ Proof.
 Qed.
 
 Example C06_guarded_nonvacuous :
-  let f := mkF true true true true true true in
+  let f := mkF true true true true true true true in
   all_guards f = true /\
   map (fun x => fst (fst (fst (fst (fst x))))) (trace f (init Up) W2) = [0; 1; 0; 0; 0; 1; 3; 3] /\
   after_stop_obs f (init Up) W2 = [] /\ after_stop_obs f (init Down) W1 = [].
